@@ -402,6 +402,10 @@ async fn session(init: &mut Side, acc: &mut Side, bound: usize, ages: &[(usize, 
             *first_check = false;
         }
         let bytes = bytes_of(&msg);
+        if bytes.len() > 1 << 20 {
+            // at most 48 entries of ~250 bytes are in play: a megabyte message means the exchange is exploding
+            return Err(Violation::new("terminate/blowup", format!("message {n} of the session is {} bytes for replicas holding a few dozen entries", bytes.len())));
+        }
         let hop: ProtocolMessage = postcard::from_bytes(&bytes).map_err(|e| harness(format!("hop decode: {e}")))?;
         transcript.push(bytes);
         n += 1;
